@@ -213,7 +213,7 @@ def s3(ck, an, concrete):
         loops = [n for n in walk_function(f.node) if isinstance(n, ast.For)]
         it = fa.sym.canon(loops[0].iter) if len(loops) == 1 else "?"
         dvar = loops[0].target.id if len(loops) == 1 and isinstance(loops[0].target, ast.Name) else "day"
-        ok_it = it == "range(1, 1 + (calendar.monthrange(year, month))[1])"
+        ok_it = it == fa.sym.canon(ast.parse("range(1, calendar.monthrange(year, month)[1] + 1)", mode="eval").body, fa.cfg.entry.id)
         ok_app = len(got) == 1 and got[0][2] == got[0][4] and got[0][1] == got[0][3]
         ck.check(ok_it and ok_app, "CONST", f"S3.rule-enumerates-month-{name}", f.short, f.loc, "every day 1..monthrange(year, month) is grouped under its weekday name",
                  f"{name}: day enumeration is range {it}, grouping {got}", construct=f"{name}._get_expiry_date loop")
